@@ -73,11 +73,11 @@ func (e *env) seedThings(ts []thingSpec) {
 // probes: after the run has settled, one dry-run and one real delete per remaining Thing.
 func (e *env) probes() {
 	c := e.w.Client("probe")
-	for i, t := range e.w.ListObjs(thingGK) {
+	for i, t := range e.w.ListObjs(e.thingGK()) {
 		n := sim.Str(t, "metadata", "name")
 		_ = e.do(c, op{Kind: "deleteThing", Name: n, Version: []string{"v1", "v2"}[i%2], Policy: policies[i%len(policies)], Dry: true})
 	}
-	for i, t := range e.w.ListObjs(thingGK) {
+	for i, t := range e.w.ListObjs(e.thingGK()) {
 		n := sim.Str(t, "metadata", "name")
 		_ = e.do(c, op{Kind: "deleteThing", Name: n, Version: []string{"v2", "v1"}[i%2], Policy: policies[(i+1)%len(policies)]})
 	}
@@ -100,7 +100,7 @@ type scenInfo struct {
 
 func (rn *runner) runScenario(sc scenario, f *scenFault, caseName string) scenInfo {
 	info := scenInfo{recCalls: map[int]int{}}
-	e := newEnv(rn.cfg, uint64(rn.c.Seed))
+	e := newEnv(rn.cfg, uint64(rn.c.Seed), coreGroup(sc.Core))
 	e.seedThings(sc.Things)
 	if f != nil && f.whInv >= 0 {
 		e.whFaults = []whFault{{Invocation: f.whInv, Idx: f.whIdx, Out: f.whOut}}
@@ -169,13 +169,24 @@ func firstLine(s string) string {
 }
 
 func (rn *runner) faultScenarios(pool *pool) {
-	for _, sc := range scenarios() {
+	all := scenarios()
+	// the same scenarios with the used / using kind in the core API group (apiVersion "v1")
+	for i, sc := range scenarios() {
+		sc.Core = true
+		sc.Name += "-core-group"
+		sc.faultFreeOnly = i >= 4
+		all = append(all, sc)
+	}
+	for _, sc := range all {
 		sc := sc
 		base := "fault/" + sc.Name
 		if !rn.c.Want(base) && !strings.HasPrefix(rn.c.Only, base) {
 			continue
 		}
 		info := rn.runScenario(sc, nil, base+"/none")
+		if sc.faultFreeOnly {
+			continue
+		}
 		steps := make([]int, 0, len(info.recCalls))
 		for s := range info.recCalls {
 			steps = append(steps, s)
@@ -217,6 +228,7 @@ type script struct {
 
 type pcase struct {
 	Name  string
+	Core  bool // the Thing kind lives in the core API group
 	Setup []step
 	A     script
 	B     []script
@@ -295,7 +307,7 @@ func (e *env) gcActor(rounds int) {
 	c := e.w.Client("gc")
 	for i := 0; i < rounds; i++ {
 		l := &unstructured.UnstructuredList{}
-		l.SetAPIVersion(thingGroup + "/v1")
+		l.SetAPIVersion(apiV(e.grp, "v1"))
 		l.SetKind("ThingList")
 		_ = c.List(bg, l)
 		if acts := e.gcPending(); len(acts) > 0 {
@@ -316,7 +328,7 @@ func (e *env) start(s *sim.Scheduler, sc script) {
 // runPreempt: A gets k grants, then the B chain gets j grants (j<0: runs to completion), then
 // A finishes, then B finishes. Returns the numbers of grants A and B received.
 func (rn *runner) runPreempt(pc pcase, k, j int, caseName string) (nA, nB int) {
-	e := newEnv(rn.cfg, uint64(rn.c.Seed))
+	e := newEnv(rn.cfg, uint64(rn.c.Seed), coreGroup(pc.Core))
 	e.seedThings(baseThings)
 	var sched []string
 	err := kit.Try(func() {
@@ -415,7 +427,7 @@ func (rn *runner) runPlan(i int) {
 	caseName := fmt.Sprintf("sched/%d", i)
 	r := rn.c.Rng("sched", i)
 	p := genPlan(r)
-	e := newEnv(rn.cfg, uint64(rn.c.Seed)*1000003+uint64(i))
+	e := newEnv(rn.cfg, uint64(rn.c.Seed)*1000003+uint64(i), coreGroup(p.Core))
 	e.seedThings(p.Things)
 	e.whFaults = p.WhFaults
 	var sched []string
